@@ -105,24 +105,30 @@ pub fn decomposes(t: &str, bodies: &[&str], e: &str, hyphen_ok: &HashSet<usize>)
     go(t, bodies, e, hyphen_ok, 0, 0, &mut dead)
 }
 
-/// Offsets (in `t`) where an in-context fragment with a non-empty penalty
-/// ends. Only custom splitters produce such fragments.
+/// Offsets (in `t`) where the configured splitter may insert a hyphen: the
+/// split points of the custom splitter (computed by the harness's own copy
+/// of the splitter function, not read back from the library's fragments)
+/// inside the words of each paragraph, except where the piece in front of
+/// the point already ends in '-'. A *forced* cut (break_words) is never such
+/// a position.
 fn hyphen_offsets(t: &str, spec: &OptSpec) -> HashSet<usize> {
     let mut out = HashSet::new();
-    if !spec.split.is_custom() {
-        return out;
-    }
-    let splitter = spec.split.splitter();
+    let points: fn(&str) -> Vec<usize> = match spec.split {
+        crate::case::Split::Every2 => crate::case::split_every2,
+        crate::case::Split::Vowels => crate::case::split_vowels,
+        _ => return out,
+    };
     let e = spec.ending();
     let mut base = 0;
     for par in t.split(e) {
         let mut pos = base;
-        for w in super::textlevel::fragments(par, spec, &splitter) {
-            pos += w.word.len();
-            if !w.penalty.is_empty() {
-                out.insert(pos);
+        for w in spec.separator().find_words(par) {
+            for idx in points(w.word) {
+                if idx > 0 && idx < w.word.len() && !w.word[..idx].ends_with('-') {
+                    out.insert(pos + idx);
+                }
             }
-            pos += w.whitespace.len();
+            pos += w.word.len() + w.whitespace.len();
         }
         base += par.len() + e.len();
     }
